@@ -16,7 +16,7 @@ theorem sumBy_nil (p : α → Bool) (f : α → Nat) : sumBy [] p f = 0 := rfl
 theorem sumBy_cons (x : α) (l : List α) (p : α → Bool) (f : α → Nat) :
     sumBy (x :: l) p f = (if p x then f x else 0) + sumBy l p f := by
   unfold sumBy
-  by_cases h : p x = true <;> simp [List.filter_cons, h]
+  by_cases h : p x = true <;> simp [h]
 
 theorem sumBy_append (l1 l2 : List α) (p : α → Bool) (f : α → Nat) :
     sumBy (l1 ++ l2) p f = sumBy l1 p f + sumBy l2 p f := by
